@@ -96,8 +96,8 @@ Definition prop_c04 (c : case) : bool :=
 
 Definition prop_holds := prop_c04.
 
-(* known-finding signature 37: an inline (squash) struct or map field that carries a
-   validate tag - the tag is not handed on to the inlined unpacking *)
+(* signature 37 (F37, repaired in /repo, so no longer suppressed): an inline (squash) struct
+   or map field that carries a validate tag *)
 Fixpoint has_inline_validated (t : ty) : bool :=
   match t with
   | TStruct fs =>
